@@ -1684,6 +1684,32 @@ class ModelSignature(BaseSignature):
         ]
 
 
+def _normalize_sequences(value):
+    """Return a value with all tuples converted to lists, recursively.
+
+    Values taken from a model (through ``deconstruct()``) contain tuples,
+    while the same values loaded from a stored JSON signature contain lists.
+    This is used to compare and hash them consistently.
+
+    Args:
+        value (object):
+            The value to normalize.
+
+    Returns:
+        object:
+        The normalized value.
+    """
+    if isinstance(value, (list, tuple)):
+        return [_normalize_sequences(_item) for _item in value]
+    elif isinstance(value, dict):
+        return dict(
+            (_key, _normalize_sequences(_value))
+            for _key, _value in six.iteritems(value)
+        )
+
+    return value
+
+
 class ConstraintSignature(BaseSignature):
     """Signature information for a explicit constraint.
 
@@ -1887,7 +1913,8 @@ class ConstraintSignature(BaseSignature):
         return (other is not None and
                 self.name == other.name and
                 self.type is other.type and
-                dict.__eq__(self.attrs, other.attrs))
+                _normalize_sequences(self.attrs) ==
+                _normalize_sequences(other.attrs))
 
     def __hash__(self):
         """Return a hash of the signature.
@@ -1898,7 +1925,8 @@ class ConstraintSignature(BaseSignature):
             int:
             The hash of the signature.
         """
-        return hash(repr(self))
+        return hash(repr((self.name, self.type,
+                          _normalize_sequences(self.attrs))))
 
     def __repr__(self):
         """Return a string representation of the signature.
@@ -2118,8 +2146,10 @@ class IndexSignature(BaseSignature):
                 ((not self.expressions and not other.expressions) or
                  list(self.expressions or []) ==
                  list(other.expressions or [])) and
-                self.fields == other.fields and
-                dict.__eq__(self.attrs or {}, other.attrs or {}))
+                _normalize_sequences(self.fields) ==
+                _normalize_sequences(other.fields) and
+                _normalize_sequences(self.attrs or {}) ==
+                _normalize_sequences(other.attrs or {}))
 
     def __hash__(self):
         """Return a hash of the signature.
@@ -2132,8 +2162,10 @@ class IndexSignature(BaseSignature):
         """
         # Expressions may be a tuple (from a model) or a list (loaded from
         # JSON). Both must hash the same, since they compare equal.
-        return hash(repr((self.name, self.fields,
-                          list(self.expressions or []), self.attrs)))
+        return hash(repr((self.name,
+                          _normalize_sequences(self.fields),
+                          list(self.expressions or []),
+                          _normalize_sequences(self.attrs or {}))))
 
     def __repr__(self):
         """Return a string representation of the signature.
